@@ -6,8 +6,10 @@
 //! usage: harness <property> <quick|thorough> <seed> <outdir>
 
 mod common;
+mod c03;
 mod c04;
 mod c05;
+mod c06;
 mod c08;
 mod c09;
 mod c10;
@@ -16,6 +18,7 @@ mod c12;
 mod c14;
 mod c15;
 mod c18;
+mod c19;
 mod hist;
 mod tok;
 
@@ -33,6 +36,7 @@ fn main() {
     let mut out = Out::new(std::path::Path::new(&args[4]));
     std::panic::set_hook(Box::new(|_| {}));
     let rule = match args[1].as_str() {
+        "C03" => c03::run_c03(&mut out, &mut rng, tier),
         "C04" => c04::run_c04(&mut out, &mut rng, tier),
         "C09" => c09::run_c09(&mut out, &mut rng, tier),
         "C10" => c10::run_c10(&mut out, &mut rng, tier),
@@ -40,9 +44,11 @@ fn main() {
         "C11" => c11::run_c11(&mut out, &mut rng, tier),
         "C12" => c12::run_c12(&mut out, &mut rng, tier),
         "C15" => c15::run_c15(&mut out, &mut rng, tier),
+        "C19" => c19::run_c19(&mut out, &mut rng, tier),
         "C18" => c18::run_c18(&mut out, &mut rng, tier),
         "C13" => c04::run_c13(&mut out, &mut rng, tier),
         "C05" => c05::run_c05(&mut out, &mut rng, tier),
+        "C06" => c06::run_c06(&mut out, &mut rng, tier),
         "C08" => c08::run_c08(&mut out, &mut rng, tier),
         other => {
             eprintln!("unknown property {other}");
